@@ -395,6 +395,7 @@ def run(ctx):
     ctx.attempt(motion_application_rule, ctx)
     ctx.attempt(location_candidates_rule, ctx)
     ctx.attempt(mesh_motion_rule, ctx)
+    ctx.attempt(preselection_rule, ctx)
 
 
 def candidate_order_rule(ctx):
@@ -828,3 +829,43 @@ def mesh_motion_rule(ctx, rid="R8.15"):
             r.fail(f.qualname, f"notify:{label}", f.file, f.lineno, f"Mesh.{label}", f"Mesh.{label} does not notify the observers")
         else:
             r.ok(f"Mesh.{label}: every group moved, observers notified")
+
+
+def preselection_rule(ctx):
+    """R8.16: 'locating arbitrary points ... in batches': the bounding-box preselection of _Get_Mapping returns every query
+    coordinate that lies inside the bounds of the element, whatever the TYPE of the coordinate array (an integer
+    lattice takes the image fast path) and the ORDER of the coordinates in it: an image raster, the same lattice in
+    x-major order, a shuffled lattice, and the same points as floats -- points on the far boundary included.
+    _Get_coord_Near is interpreted with integer-kind arrays modelled."""
+    repo = ctx.repo
+    ge = repo.cls(GE)
+    f = ge.methods["_Get_coord_Near"]
+    r = ctx.rule("R8.16", "bounding-box preselection of the point location: every coordinate inside the element's bounds is returned, for integer lattices in any order and for floats, far boundary included", min_instances=6)
+    nX, nY = 5, 4
+    raster = [(x, y) for y in range(nY) for x in range(nX)]  # image order: x fastest
+    xmajor = [(x, y) for x in range(nX) for y in range(nY)]  # np.mgrid order
+    shuffled = [raster[(7 * k + 3) % len(raster)] for k in range(len(raster))]
+    elems = {"interior": [(Q(6, 5), Q(1, 2)), (Q(16, 5), Q(1, 2)), (Q(2), Q(12, 5))], "touching the far corner": [(Q(3), Q(2)), (Q(4), Q(2)), (Q(4), Q(3))]}
+    for oname, pts in (("image raster", raster), ("x-major lattice", xmajor), ("shuffled lattice", shuffled)):
+        for kind in ("i", None):
+            for ename, tri in elems.items():
+                r.instance(fn=f.qualname)
+                coords = XArray((len(pts), 3), [v for (x, y) in pts for v in (x, y, 0)], kind)
+                if kind is None:
+                    coords = XArray(coords.shape, [Q(v) for v in coords.data])
+                coordElem = XArray((3, 3), [v for (x, y) in tri for v in (x, y, Q(0))])
+                dims = XArray((3,), [nX, nY, 1], kind)
+                xs, ys = [p[0] for p in tri], [p[1] for p in tri]
+                want = {k for k, (x, y) in enumerate(pts) if min(xs) <= x <= max(xs) and min(ys) <= y <= max(ys)}
+                label = f"{oname} of {'integers' if kind else 'floats'}, element {ename}"
+                try:
+                    out = Interp(repo).call_function(f, [coords, coordElem, dims], self_obj=XObj(ge, {}))
+                    got = {int(exact(v)) for v in XArray.from_nested(out).data}
+                except XRaise as e:
+                    r.fail(f.qualname, f"preselect:{oname}:{kind}", f.file, f.lineno, "_Get_coord_Near", f"{label}: raises {e}")
+                    continue
+                missing = sorted(want - got)
+                if missing:
+                    r.fail(f.qualname, f"preselect:{oname}:{'int' if kind else 'float'}", f.file, f.lineno, "_Get_coord_Near", f"{label}: the coordinates {[pts[k] for k in missing][:4]} lie inside the element's bounds but are not preselected (returned: {[pts[k] for k in sorted(got)][:6]}): they are never tested against the element, the field evaluated there is 0")
+                else:
+                    r.ok(f"{label}: every coordinate in the bounds is preselected")
